@@ -21,7 +21,7 @@
     where akita requires it. *)
 From VMem Require Import Pmc PmcLemmas PmcProofs PmcLive PmcBi PmcBi7 PmcExamples.
 From Coq Require Import Permutation.
-From VDrv Require Import Migration MigrationProofs MigrationPages Handshake HandshakeProofs HandshakePages HandshakeExamples.
+From VDrv Require Import Migration MigrationProofs MigrationPages Handshake HandshakeProofs HandshakePages HandshakeMMU HandshakeExamples.
 Open Scope N_scope.
 
 (** [completed s]: the accepted requests for which a completion response has
@@ -410,3 +410,39 @@ Proof.
   split; [|exact ex_prepare].
   intros gv [<-|[<-|[<-|[]]]]; reflexivity.
 Qed.
+
+(** ** The answer to the MMU under back-pressure
+
+    The driver's MMU port holds one outgoing message.  [h_tommu] is the slot
+    Driver.toSendToMMU.  A tick with a pending answer [m]: if the port has room
+    the answer is sent (appended to what the port holds); if the port is full
+    nothing is sent and the answer is STILL in the slot afterwards - the only
+    exception being a tick that processes the last page acknowledgement of the
+    next request, whose answer then occupies the single slot.  No other event
+    touches the slot. *)
+Theorem completion_retried_until_sent : forall s m,
+  h_crashed s = false -> h_tommu s = Some m ->
+  let s' := htick s in
+  ((length (h_mmu_out s) < 1)%nat -> h_mmu_out s' = h_mmu_out s ++ [m]) /\
+  ((1 <= length (h_mmu_out s))%nat ->
+     h_mmu_out s' = h_mmu_out s /\
+     (h_tommu s' = Some m \/
+      exists q rest, h_cur s = Some q /\ h_gpu_in s = RMig :: rest /\ h_nmig s - 1 = 0)).
+Proof. exact HandshakeMMU.completion_retried_until_sent. Qed.
+Print Assumptions completion_retried_until_sent.
+
+Theorem completion_slot_only_changed_by_tick : forall s e,
+  e <> HTick -> h_tommu (fst (hstep s e)) = h_tommu s.
+Proof. exact slot_only_changed_by_tick. Qed.
+Print Assumptions completion_slot_only_changed_by_tick.
+
+(** non-vacuity: a valid run in which the first answer stays in the port during
+    the whole second migration; the second answer waits in the slot, then both
+    reach the MMU, once each *)
+Example backpressure_demo :
+  hvalid (hs_init 2) (demo_hs3a ++ demo_hs3b) /\
+  (let s := hrun (hs_init 2) demo_hs3a in
+   h_tommu s = Some (mkMRsp 51 [12288] false) /\ h_mmu_out s = [mkMRsp 50 [4096; 8192] true]) /\
+  filter (fun o => match o with HRsp _ => true | _ => false end) (hrun_obs (hs_init 2) (demo_hs3a ++ demo_hs3b)) =
+  [HRsp (Some (mkMRsp 50 [4096; 8192] true)); HRsp (Some (mkMRsp 51 [12288] false)); HRsp None].
+Proof. split; [exact demo_hs3_valid|]. split; [exact demo_hs3_waiting|exact demo_hs3_answers]. Qed.
